@@ -129,7 +129,7 @@ impl Check for C14 {
         tier.pick(std::time::Duration::from_secs(200), std::time::Duration::from_secs(2400))
     }
     fn required_counters(&self, _tier: Tier) -> Vec<&'static str> {
-        vec!["levels:1", "levels:2", "levels:3", "rejected:too-small", "order:Random", "content:incompressible", "build:max=1048576", "build:max=1024", "mode:public", "mode:private", "round-trip-ok"]
+        vec!["levels:1", "levels:2", "levels:3", "rejected:too-small", "order:Random", "content:incompressible", "build:max=1048576", "build:max=1024", "mode:public", "mode:private", "round-trip-ok", "realnet:round-trips-ok"]
     }
     fn exe_for_index(&self, index: u64) -> Option<PathBuf> {
         if index % 2 == 1 {
@@ -138,7 +138,13 @@ impl Check for C14 {
             Some(PathBuf::from("/verif/harness/target/release/vcheck"))
         }
     }
+    fn lane_cases(&self, tier: Tier) -> u64 {
+        tier.pick(6, 48)
+    }
     fn run_case(&self, cx: &mut Cx) {
+        if cx.index >= LANE_BASE {
+            return crate::realcases::c14_case(cx);
+        }
         let max = *MAX_CHUNK_SIZE;
         let want_small = cx.index % 2 == 1;
         if want_small != (max == SMALL_MAX) {
